@@ -1,7 +1,9 @@
 package props
 
 import (
+	"bytes"
 	"fmt"
+	"github.com/Syuparn/pangaea/runscript"
 	"math/rand"
 	"strings"
 
@@ -198,6 +200,14 @@ func (g *c03gen) program() []ref.Expr {
 			leaf.Body = append([]ref.Expr{&ref.Print{E: &ref.ArrLit{Elems: []ref.Expr{&ref.Var{Name: "kd"}, &ref.Var{Name: "xa"}}}}}, leaf.Body...)
 			g.features["kw-default-from-enclosing-call"] = true
 		}
+		snapshot := ""
+		if len(ints) > 0 && g.rng.Intn(2) == 0 {
+			// the factory takes a snapshot `v := v` of an enclosing variable (the very same value at that moment): the
+			// call owns that variable from then on, whatever the enclosing one becomes later
+			snapshot = g.pick(ints)
+			leaf.Body = append([]ref.Expr{&ref.Print{E: &ref.ArrLit{Elems: []ref.Expr{&ref.Var{Name: snapshot}, &ref.Var{Name: "xa"}}}}}, leaf.Body...)
+			g.features["snapshot-assignment-in-factory"] = true
+		}
 		depth := 2 + g.rng.Intn(2)
 		var factory *ref.Func
 		if depth == 2 {
@@ -205,6 +215,9 @@ func (g *c03gen) program() []ref.Expr {
 		} else {
 			mid := &ref.Func{Params: []string{"pa"}, Body: []ref.Expr{&ref.Print{E: &ref.ArrLit{Elems: []ref.Expr{&ref.Var{Name: "pa"}, g.atom(ints)}}}, &ref.Return{E: leaf}}}
 			factory = &ref.Func{Params: []string{"xa"}, Body: []ref.Expr{&ref.Return{E: mid}}}
+		}
+		if snapshot != "" {
+			factory.Body = append([]ref.Expr{&ref.Assign{Name: snapshot, E: &ref.Var{Name: snapshot}}}, factory.Body...)
 		}
 		prog = append(prog, &ref.Assign{Name: "fz", E: factory})
 		mk = func(cn string) {
@@ -411,6 +424,43 @@ func runC03(w *fw.W) {
 			}
 		}
 		r := fw.Result{Verdict: fw.Held, Evals: n, Counters: map[string]int{"iterator_scoping_programs": n, "decided": n}, DKeys: []string{fmt.Sprintf("iter-scoping|%d", k)}}
+		vs.finish(&r)
+		w.End(r)
+	}
+	// the REPL entry point: a program typed line by line is the same program (functions written on one line see later
+	// reassignments made on other lines; failing lines in between change nothing)
+	if w.Take() {
+		w.Begin("REPL: closures across lines", nil)
+		var vs violSet
+		n := 0
+		rng := w.Rand()
+		for i := 0; i < 30; i++ {
+			a, b, c := rng.Intn(90)+1, rng.Intn(90)+100, rng.Intn(90)+200
+			scen := []struct {
+				lines []string
+				want  string
+			}{
+				{[]string{fmt.Sprintf("x := %d", a), "f := {|| x}", fmt.Sprintf("x := %d", b), "f()"}, fmt.Sprint(b)},
+				{[]string{fmt.Sprintf("x := %d", a), "f := {|| x}", "nosuchname", fmt.Sprintf("x := %d", b), "1 / 0", "f()"}, fmt.Sprint(b)},
+				{[]string{fmt.Sprintf("x := %d", a), "mk := {|q| {|| [q, x]}}", fmt.Sprintf("g := mk(%d)", c), fmt.Sprintf("x := %d", b), "g()"}, fmt.Sprintf("[%d, %d]", c, b)},
+				{[]string{fmt.Sprintf("x := %d", a), "f := {|y| x += y; x}", fmt.Sprintf("f(%d)", b), "x"}, fmt.Sprint(a)},
+				{[]string{fmt.Sprintf("o := {m: m{|| lim}, v: %d}", a), fmt.Sprintf("lim := %d", b), "o.m", fmt.Sprintf("lim := %d", c), "o.m"}, fmt.Sprint(c)},
+				{[]string{fmt.Sprintf("it := <{|i| yield i + base; recur(i + 1)}>.new(0)"), fmt.Sprintf("base := %d", a), "it.next", fmt.Sprintf("base := %d", b), "it.next"}, fmt.Sprint(b + 1)},
+			}[i%6]
+			var out bytes.Buffer
+			runscript.StartREPL("", strings.NewReader(strings.Join(scen.lines, "\n")+"\n"), &out)
+			n++
+			last := ""
+			for _, ln := range strings.Split(strings.TrimSpace(out.String()), "\n") {
+				if strings.HasPrefix(ln, ">>> ") && strings.TrimSpace(strings.TrimPrefix(ln, ">>> ")) != "" {
+					last = strings.TrimSpace(strings.TrimPrefix(ln, ">>> "))
+				}
+			}
+			if last != scen.want {
+				vs.add("C03|repl|closure-across-lines", fmt.Sprintf("REPL lines %q: the last line answered %q, lexical scoping gives %s", scen.lines, last, scen.want), scen.lines)
+			}
+		}
+		r := fw.Result{Verdict: fw.Held, Evals: n, Counters: map[string]int{"repl_scoping_sessions": n, "decided": n}, DKeys: []string{"repl-scoping"}}
 		vs.finish(&r)
 		w.End(r)
 	}
